@@ -5,6 +5,7 @@ from vf.props.progbase import ProgProp
 class C04(ProgProp):
     id = "C04"
     use_asm = True
+    corpus_aspects = ("jump", "labels")
     use_tables = True
     aspects = ("jump", "labels")
     rule = ("case = (bytecode version, program) from G-PROG (loops, generators, async, try/with) / stdlib sample; "
